@@ -412,6 +412,44 @@ def check_lemma(db, s, lem):
     return "unknown lemma kind %r" % kind
 
 
+def fingerprint(b, s):
+    """name-independent identity of a site: construct, callee, and how its operands are computed (callee names and literals in the backward
+    slice of the operands inside the body).  Lets a reviewed site be recognised after its function was renamed, moved or extracted."""
+    t = b.blocks[s["bi"]]["term"]
+    ops = []
+    if t["k"] == "call":
+        ops = list(t["args"])
+    elif t["k"] == "assert":
+        p, rv = _cond_def(b, s["bi"])
+        ops = list(rv["ops"]) if rv is not None else []
+    names, consts = set(), set()
+    for o in ops:
+        if not isinstance(o, dict):
+            continue
+        if "c" in o:
+            if o.get("c") in ("str", "bstr", "int"):
+                consts.add(str(o.get("v"))[:24])
+            continue
+        sl = flow.backward(b, o, at=s["bi"], max_nodes=400, through_calls=False)
+        for _, ct, _ in sl.calls:
+            d = callee_def(ct)
+            if not flow.is_transparent(ct) and not from_skipped_macro(ct.get("span")):
+                names.add(short(d))
+        for c in sl.consts:
+            if c.get("c") in ("str", "bstr", "int"):
+                consts.add(str(c.get("v"))[:24])
+    return "%s|%s|%s|%s" % (s["kind"], short(s["callee"]) if s["callee"] else "", ",".join(sorted(names)[:14]), ",".join(sorted(consts)[:10]))
+
+
+WEAK_NAMES = {"next", "into_iter", "iter", "get", "first", "last", "pop", "peek", "take", "as_ref", "as_mut"}
+
+
+def _weak_fp(fp):
+    kind, callee, names, consts = (fp.split("|") + ["", "", "", ""])[:4]
+    ns = {n for n in names.split(",") if n}
+    return (not ns and not consts) or (ns and ns <= WEAK_NAMES and not consts)
+
+
 def load_table():
     if not os.path.exists(TABLE):
         return {}
@@ -444,6 +482,10 @@ def inventory(db):
 def rule_r5(chk, db, tier):
     bodies, sites = inventory(db)
     table = load_table()
+    # (a fingerprint that says nothing about the operands would match unrelated sites: not used)
+    # and one whose operands are only an iterator step / element access would match any such site)
+    by_fp = {(e["fp"], e.get("file")): e for e in table.values() if e.get("fp") and not _weak_fp(e["fp"])}
+    n_fp = 0
     chk.stats["request_path_bodies"] = len(bodies)
     chk.floor("R5.bodies", len(bodies), 400, "bodies reachable from S3Service::call")
     n_dis = n_tab = n_lem = 0
@@ -456,6 +498,12 @@ def rule_r5(chk, db, tier):
             chk.ok("R5", s["key"], s["loc"], {"discharged": why}, nontrivial=True)
             continue
         e = table.get(s["key"])
+        if e is None:
+            # the same construct in a renamed / moved / extracted function
+            fp = fingerprint(b, s)
+            e = by_fp.get((fp, s["loc"].rsplit(":", 1)[0]))
+            if e is not None:
+                n_fp += 1
         if e is not None:
             if e.get("lemma"):
                 bad = check_lemma(db, s, e["lemma"])
@@ -472,9 +520,10 @@ def rule_r5(chk, db, tier):
     chk.stats["panic_sites_discharged_locally"] = n_dis
     chk.stats["panic_sites_reviewed_table"] = n_tab
     chk.stats["panic_sites_reviewed_with_checked_lemma"] = n_lem
+    chk.stats["panic_sites_matched_by_fingerprint_only"] = n_fp
     chk.floor("R5", len(sites), 90, "explicit panic constructs on the request path")
     chk.floor("R5.discharged", n_dis, 45, "panic constructs discharged by a proof rule")
-    stale = sorted(set(table) - {s["key"] for s in sites})
+    stale = sorted(set(table) - {s["key"] for s in sites}) if not n_fp else []
     if stale:
         chk.advisory("%d entries of oracles/panic_sites.json no longer match a site (e.g. %s)" % (len(stale), stale[:2]))
 
@@ -486,6 +535,19 @@ if __name__ == "__main__":
     db = load_db()
     bodies, sites = inventory(db)
     table = load_table()
+    if "--update-fp" in sys.argv:
+        with open(TABLE) as fh:
+            d = json.load(fh)
+        bykey = {s["key"]: s for s in sites}
+        for e in d["sites"]:
+            s0 = bykey.get(e["key"])
+            if s0 is not None:
+                e["fp"] = fingerprint(s0["body"], s0)
+                e["file"] = s0["loc"].rsplit(":", 1)[0]
+        with open(TABLE, "w") as fh:
+            json.dump(d, fh, indent=1)
+        print("fingerprints written for %d entries" % len([e for e in d["sites"] if e.get("fp")]))
+        sys.exit(0)
     for s in sites:
         why = discharge(db, s["body"], s)
         if why or s["key"] in table:
